@@ -7,6 +7,10 @@ attributed to exactly one input):
   bytes       every string of length <= n over the scanners' byte alphabet        (source file)
   tokens      every sequence of <= m tokens over the parser's token alphabet       (source file)
   directives  every sequence of <= k lines over the directive/macro line alphabet  (source file)
+  cycle       macro definition sets forming every directed cycle shape of length 1..3 (object-like,
+              function-like, mixed, tail into a cycle) x every context that expands text (tokens, #if,
+              #elif, later #define, #include operand, macro argument, # and ##), optionally with one
+              definition of the cycle supplied by -D
   if-expr     every operator of the #if grammar over the boundary values           (source file)
   edit-byte   ALL single byte edits of the corpus (delete/replace/insert)          (source file)
   edit-token  ALL single token edits of the corpus                                 (source file)
@@ -74,6 +78,10 @@ def make_case(inp, mode, keep=0):
     elif kind == "def":
         files = [("in.h", G.DEF_HEADER)]
         args += ["-D", payload]
+    elif kind == "defsrc":      # payload = -D text, NUL, source file
+        dopt, _, src = payload.partition(b"\0")
+        files = [("in.h", src)]
+        args += ["-D", dopt]
     else:
         raise HarnessError("unknown kind " + kind)
     return (keep, files, args + ["in.h"])
@@ -458,6 +466,14 @@ def fam_cmd():
         yield ("cmdfile", lab, "cmd", d)
 
 
+def fam_cycle():
+    for lab, dopt, src in G.cycles():
+        if dopt is None:
+            yield ("cycle", lab, "src", src)
+        else:
+            yield ("cycle", lab, "defsrc", dopt + b"\0" + src)
+
+
 def fam_def():
     for lab, d in G.defines():
         if b"\0" not in d:
@@ -489,6 +505,7 @@ def main():
         ok &= F("bytes:n<=2", fam_bytes(G.A39, 0, 2), modes=("I", "E"))
         ok &= F("if-expr", fam_if(G.VALUES_Q), modes=("I", "E"))
         ok &= F("directives:k<=1", fam_dlines(0, 1), modes=("I", "E"))
+        ok &= F("cycle", fam_cycle(), modes=("I", "I2", "P", "E"), adaptive=False)
         ok &= F("cmdfile", fam_cmd(), modes=("I",), adaptive=False)
         ok &= F("cmdfile:bytes", fam_bytes(G.A39, 0, 2, kind="cmd", fam="cmdfile"), modes=("I",), adaptive=False)
         ok &= F("define", fam_def(), modes=("I", "P", "E"), adaptive=False)
@@ -510,7 +527,8 @@ def main():
         complete = quick_space(basan)
         bounds = ("bytes n<=2 over 39 symbols, n=3 over 32; tokens m<=2 over 47, m=3 over 30; directive "
                   "lines k<=2 over %d; single token edits of 14 files, single byte edits of 4 files; "
-                  "#if operators over 6 values; .N and -D alphabets; include" % len(G.DLINES))
+                  "#if operators over 6 values; %d macro-cycle shapes x %d use contexts; .N and -D alphabets; "
+                  "include" % (len(G.DLINES), len(G.cycle_shapes()), len(G.CYCLE_CONTEXTS)))
     else:
         brel = builds["rel"]
         F = lambda *a, **k: ex.family(brel, *a, flag_rel=True, **k)
